@@ -202,9 +202,77 @@ fn run_route(t: &Rc<RT>, pos: Pos, vt: &Rc<RT>, v: &Rc<RV>, route: Route, out: &
     }
 }
 
+/// The witness under test left unpopulated (`None` at construction, or its name missing from the
+/// witness map): every route either reports an error or returns a program whose witness values all
+/// have their node's type (the library fills in a value itself).
+fn leg_absent(ctx: &Ctx, out: &mut Out, thorough: bool) {
+    let leg = "absent";
+    for t in host_types(thorough) {
+        if !ctx.mine() {
+            continue;
+        }
+        for pos in [Pos::Executed, Pos::Unexecuted] {
+            for route in [Route::FinalizeUnpruned, Route::FinalizePruned, Route::HumanMapUnpruned, Route::HumanMapPruned] {
+                let label = || format!("witness node type {t} ({pos:?}), no value supplied, route {route:?}");
+                if !ctx.begin(leg, &label) {
+                    continue;
+                }
+                out.evaluations += 1;
+                out.states += 1;
+                out.nontrivial += 1;
+                out.transitions += 1;
+                let r = guard(|| -> Result<&'static str, (String, String)> {
+                    let res: Result<Arc<RedeemNode>, String> = match route {
+                        Route::FinalizeUnpruned => types::Context::with_context(|ctx| host(&ctx, &t, pos, None).finalize_unpruned().map_err(|e| e.to_string())),
+                        Route::FinalizePruned => types::Context::with_context(|ctx| host(&ctx, &t, pos, None).finalize_pruned(&CoreEnv::new()).map_err(|e| e.to_string())),
+                        _ => {
+                            let commit = types::Context::with_context(|ctx| host(&ctx, &t, pos, None).finalize_types()).map_err(|e| ("host:types".to_string(), e.to_string()))?;
+                            let text = Forest::from_program(commit).string_serialize();
+                            let Ok(forest) = Forest::parse::<Core>(&text) else { return Ok("route-unavailable(host text does not reparse, see C17)") };
+                            let main = forest.roots().get("main").ok_or(("host:reparse".to_string(), "no main".to_string()))?;
+                            // only the follower is given a value
+                            let names: Vec<Arc<str>> = main.as_ref().post_order_iter::<InternalSharing>().filter(|i| matches!(i.node.inner(), Inner::Witness(_))).map(|i| i.node.name().clone()).collect();
+                            if names.len() != 2 {
+                                return Err(("host:reparse".into(), format!("{} witness names", names.len())));
+                            }
+                            let mut map: HashMap<Arc<str>, Value> = HashMap::new();
+                            map.insert(names[1].clone(), follower_value());
+                            types::Context::with_context(|ctx| {
+                                let n = forest.to_witness_node(&ctx, &map).ok_or("no main".to_string())?;
+                                if route == Route::HumanMapUnpruned {
+                                    n.finalize_unpruned().map_err(|e| e.to_string())
+                                } else {
+                                    n.finalize_pruned(&CoreEnv::new()).map_err(|e| e.to_string())
+                                }
+                            })
+                        }
+                    };
+                    match res {
+                        Err(_) => Ok("absent:error"),
+                        Ok(p) => {
+                            check_accepted(&p, route, out)?;
+                            Ok("absent:accepted(value filled in)")
+                        }
+                    }
+                });
+                match r {
+                    Ok(Ok(o)) => {
+                        out.outcome(o);
+                        out.sample(leg, || (label(), o.to_string()));
+                    }
+                    Ok(Err((c, d))) => out.violation(&format!("{c}:{route:?}"), leg, label(), d),
+                    Err(p) => out.violation(&format!("{}:{route:?}", panic_class(&p)), leg, label(), p),
+                }
+                ctx.end();
+            }
+        }
+    }
+}
+
 fn run(ctx: &Ctx, out: &mut Out) {
     let leg = "routes";
     let thorough = ctx.tier == crate::engine::Tier::Thorough;
+    leg_absent(ctx, out, thorough);
     let cands = candidate_values(thorough);
     for t in host_types(thorough) {
         for pos in [Pos::Executed, Pos::Unexecuted] {
